@@ -91,7 +91,7 @@ def agrees(obs, exp):
 
 def replay_record(rec):
     """-> (status, detail)"""
-    layouts = rec.get("_layouts", [(0, False), (4, False), (1, True)])
+    layouts = rec.get("_layouts", [(0, False), (4, False), (1, True), (2, "ref")])
     first = None
     for k, (layout, cexpr) in enumerate(layouts):
         obs, s = observe(rec["text"], layout, rec["_seed"] + k, cexpr)
